@@ -225,13 +225,16 @@ Section Sim.
       destruct (call_default (e_now E) name this args) as [r|]; [apply fsim_lift; intros; exact Logic.I|apply fsim_fail].
   Qed.
 
-  Lemma sim_eval_ident c : fsim anyv (eval_ident rs c) (eval_ident rs c).
+  Lemma frel_ident : frel (ident_env Ef) (ident_env E).
+  Proof. constructor; cbn; auto; try discriminate. exact (fr_fold _ _ HA). Qed.
+
+  Lemma sim_eval_ident c : fsim anyv (eval_ident rs Ef c) (eval_ident rs E c).
   Proof.
-    apply (fsim_post (rs empty_env c false O) (rs empty_env c false O)
+    apply (fsim_post (rs (ident_env Ef) c false O) (rs (ident_env E) c false O)
              (fun r => match r with ROk (VIdent s) => ROk (inr s) | ROk _ => ROk (inl (VErr EMisc)) | RErr e => ROk (inl (VErr e)) | r => mcast r end)).
-    - apply Hrs; [exact frel_empty|right; reflexivity].
-    - intros lg. unfold eval_ident. destruct (rs empty_env c false O lg) as [[v|e| | |] lg']; try reflexivity. destruct v; reflexivity.
-    - intros lg. unfold eval_ident. destruct (rs empty_env c false O lg) as [[v|e| | |] lg']; try reflexivity. destruct v; reflexivity.
+    - apply Hrs; [exact frel_ident|right; reflexivity].
+    - intros lg. unfold eval_ident. destruct (rs (ident_env Ef) c false O lg) as [[v|e| | |] lg']; try reflexivity. destruct v; reflexivity.
+    - intros lg. unfold eval_ident. destruct (rs (ident_env E) c false O lg) as [[v|e| | |] lg']; try reflexivity. destruct v; reflexivity.
   Qed.
 
   Lemma sim_run_body E1 E1' c : frel E1 E1' -> fsim anyv (run_body rs d E1 c) (run_body rs d E1' c).
@@ -244,7 +247,7 @@ Section Sim.
     - intros lg. unfold run_body. destruct (rs E1' c true d lg) as [[v|e| | |] lg']; reflexivity.
   Qed.
 
-  Lemma sim_with_ident c k k' : (forall x, fsim anyv (k x) (k' x)) -> fsim anyv (with_ident rs c k) (with_ident rs c k').
+  Lemma sim_with_ident c k k' : (forall x, fsim anyv (k x) (k' x)) -> fsim anyv (with_ident rs Ef c k) (with_ident rs E c k').
   Proof.
     intros Hk. unfold with_ident. eapply fsim_bind; [apply sim_eval_ident|]. intros [e|x] _; [apply fsim_ret; exact Logic.I|apply Hk].
   Qed.
